@@ -533,7 +533,7 @@ def _syn_integral(e):
     return False
 
 
-UF_RET = {"uf_isWorkingTime": T.Bool, "uf_tzoff": T.Real, "uf_sbidx": T.Int}
+UF_RET = {"uf_isWorkingTime": T.Bool, "uf_tzoff": T.Real, "uf_sbidx": T.Int, "uf_minsum": T.Int}
 
 
 def parse_ty(spec: str):
